@@ -195,8 +195,8 @@ theorem frm_fsmNotificationReceived (i : Nat) (s : Sess) (e sub : Nat) :
   unfold fsmNotificationReceived
   split
   · split
-    · exact ((frm_setRetry i s _).trans (frm_closeConn i _)).trans (frm_setSt i _ _)
-    · exact ((frm_setRetry i s _).trans (frm_closeConn i _)).trans (frm_setSt i _ _)
+    · exact ((((frm_setRetry i s _).trans (frm_setHold i _ _)).trans (frm_setKeepalive i _ _)).trans (frm_closeConn i _)).trans (frm_setSt i _ _)
+    · exact ((((frm_setRetry i s _).trans (frm_setHold i _ _)).trans (frm_setKeepalive i _ _)).trans (frm_closeConn i _)).trans (frm_setSt i _ _)
     · exact frm_errorClose i s
     · exact frm_errorClose i s
     · exact frm_errorClose i s
